@@ -1030,6 +1030,10 @@ def run(ctx):
         "additionally confirmed by actually calling the substitute",
         "enumeration of patches through jax2onnx.plugins.plugin_system (PLUGIN_REGISTRY, binding_specs, _iter_patch_specs) and "
         "conversion_api._activate_plugin_worlds of the tree under test",
+        "behavioural differential (no theorem): the installed library functions run eagerly as the reference; jax.make_jaxpr + "
+        "jax.core.eval_jaxpr and to_onnx + onnxruntime as the two views of the substitute; numpy.allclose(rtol 1e-3, atol 1e-5) as "
+        "the comparator (dtype compared exactly on the traced view, by class on the exported view); XLA's persistent compilation "
+        "cache (VERIF_JAX_CACHE, default /tmp/verif_c19_jaxcache) only speeds the eager side up",
     ]
     ctx.assumptions = [
         "Only binding is covered by proof (a valid call never fails merely because the substitute binds arguments differently).  "
